@@ -210,7 +210,7 @@ func init() {
 		"strings.Join": func(c *FnCtx, f *ssa.Function, a []Val, rt types.Type, pos token.Pos) (Val, bool) {
 			c.usedExtern("strings.Join")
 			n := c.freshConst("joined", SStr)
-			h := c.H("S|Str")
+			h := c.H(c.strSliceHeap())
 			// a single element joins to itself; an empty list to ""
 			c.fact(fmt.Sprintf("(=> (= (s_len %s) 0) (= %s str_empty))", a[0].T, n))
 			c.fact(fmt.Sprintf("(=> (= (s_len %s) 1) (= %s (select (select %s (s_ref %s)) (s_off %s))))", a[0].T, n, h, a[0].T, a[0].T))
@@ -245,7 +245,7 @@ func init() {
 		"sort.Strings": func(c *FnCtx, f *ssa.Function, a []Val, rt types.Type, pos token.Pos) (Val, bool) {
 			c.usedExtern("sort.Strings")
 			row := c.freshConst("sorted", "(Array Int Str)")
-			c.setH("S|Str", fmt.Sprintf("(store %s (s_ref %s) %s)", c.H("S|Str"), a[0].T, row))
+			c.setH(c.strSliceHeap(), fmt.Sprintf("(store %s (s_ref %s) %s)", c.H(c.strSliceHeap()), a[0].T, row))
 			return Val{S: "Tuple"}, true
 		},
 	}
@@ -256,8 +256,8 @@ func init() {
 			if !ok {
 				return Val{}, false
 			}
-			es := c.M.SortOf(st.Elem())
-			h := c.H("S|" + string(es))
+			hn0, _ := c.M.SliceHeap(st.Elem())
+			h := c.H(hn0)
 			r := c.freshConst("contains", SBool)
 			sk := c.freshConst("sk", SInt)
 			s, v := a[0].T, a[1].T
@@ -304,8 +304,7 @@ func init() {
 				c.havocMod(c.E.modInfo(a[1].Fn.Fn).Exist, c.E.modInfo(a[1].Fn.Fn).Fresh, "sort callback")
 				c.E.noteCallbackPanics(c, a[1].Fn.Fn)
 			}
-			es := c.M.SortOf(st.Elem())
-			hn := "S|" + string(es)
+			hn, es := c.M.SliceHeap(st.Elem())
 			row := c.freshConst("sorted", Sort("(Array Int "+string(es)+")"))
 			c.setH(hn, fmt.Sprintf("(store %s (s_ref %s) %s)", c.H(hn), a[0].T, row))
 			return Val{S: "Tuple"}, true
@@ -350,8 +349,13 @@ func (c *FnCtx) splitModel(s, sep, n string) Val {
 				n, cnt, ct, cnt, row, s, cnt, row, s, ix, row, s, ix, sep, s))
 		}
 	}
-	c.setH("S|Str", fmt.Sprintf("(store %s %s %s)", c.H("S|Str"), r, row))
+	c.setH(c.strSliceHeap(), fmt.Sprintf("(store %s %s %s)", c.H(c.strSliceHeap()), r, row))
 	res := c.freshConst("splitres", SSlice)
 	c.fact(fmt.Sprintf("(= %s (mk_slice %s 0 %s %s))", res, r, cnt, cnt))
 	return Val{T: res, S: SSlice, GT: sliceStr}
+}
+
+func (c *FnCtx) strSliceHeap() string {
+	hn, _ := c.M.SliceHeap(types.Typ[types.String])
+	return hn
 }
